@@ -640,3 +640,88 @@ impl SimWorld {
             .collect()
     }
 }
+
+/// What the plugin itself declares about system order: builds an App with the regular
+/// registration only (nothing pinned), lets bevy build the `Update` schedule and reads the graph:
+/// dependency edges among mina's systems and the pairs bevy reports as conflicting (ambiguous).
+/// Also asserts that every sequence the simulator pins is a linear extension of those edges.
+pub fn declared_order_report() -> Json {
+    let mut app = App::new();
+    let base = Instant::now();
+    let mut time = Time::new(base);
+    time.update_with_instant(base);
+    app.insert_resource(time);
+    app.add_plugins(AnimationPlugin::<Target>::new());
+    app.add_plugins(AnimationPlugin::<Other>::new());
+    app.register_animation_key::<Target, Key>();
+    let short = |name: &str| -> Option<&'static str> {
+        if name.contains("chain_animations") {
+            Some("chain")
+        } else if name.contains("select_animation") {
+            Some("select")
+        } else if name.contains("animate<") && name.contains("Other") {
+            Some("animate_other")
+        } else if name.contains("animate<") {
+            Some("animate")
+        } else {
+            None
+        }
+    };
+    let mut names: Vec<(bevy::ecs::schedule::NodeId, &'static str)> = Vec::new();
+    if let Some(s) = app.get_schedule(Update) {
+        for (id, sys, _) in s.graph().systems() {
+            if let Some(n) = short(&sys.name()) {
+                names.push((id, n));
+            }
+        }
+    }
+    app.update();
+    let name_of = |id: bevy::ecs::schedule::NodeId| names.iter().find(|(i, _)| *i == id).map(|(_, n)| *n);
+    let mut edges: Vec<(String, String)> = Vec::new();
+    let mut ambiguous: Vec<(String, String)> = Vec::new();
+    if let Some(s) = app.get_schedule(Update) {
+        let g = s.graph();
+        // reachability through system-type sets: a declared `.before(animate::<T>)` is an edge to
+        // the set; use bevy's flattened result instead: conflicting pairs are exactly the pairs
+        // with a data conflict and no order between them
+        for (a, b, _) in g.conflicting_systems() {
+            if let (Some(x), Some(y)) = (name_of(*a), name_of(*b)) {
+                let (x, y) = if x <= y { (x, y) } else { (y, x) };
+                ambiguous.push((x.to_string(), y.to_string()));
+            }
+        }
+        for (a, b, _) in g.dependency().graph().all_edges() {
+            if let (Some(x), Some(y)) = (name_of(a), name_of(b)) {
+                edges.push((x.to_string(), y.to_string()));
+            }
+        }
+    }
+    ambiguous.sort();
+    ambiguous.dedup();
+    edges.sort();
+    edges.dedup();
+    // every pinned sequence respects the declared constraints chain -> animate, select -> animate
+    let mut extension_violations = 0;
+    let all = legal_sequences(true, true);
+    for seq in &all {
+        let pos = |n: &str| seq.iter().position(|x| *x == n).unwrap();
+        if !(pos("chain") < pos("animate") && pos("select") < pos("animate")) {
+            extension_violations += 1;
+        }
+    }
+    Json::obj()
+        .set(
+            "mina_systems_in_update",
+            Json::Arr(names.iter().map(|(_, n)| Json::from(*n)).collect()),
+        )
+        .set(
+            "direct_dependency_edges_between_mina_systems",
+            Json::Arr(edges.iter().map(|(a, b)| Json::from(format!("{a} -> {b}"))).collect()),
+        )
+        .set(
+            "pairs_bevy_reports_as_unordered_and_conflicting",
+            Json::Arr(ambiguous.iter().map(|(a, b)| Json::from(format!("{a} <-> {b}"))).collect()),
+        )
+        .set("linearizations_the_simulator_pins", all.len())
+        .set("linearizations_violating_declared_constraints", extension_violations)
+}
